@@ -55,8 +55,26 @@ def specs(tier):
             spec('noq-S3-same-nobuild', 'S3', 'stabilization/4.3.18',
                  'stabilization/4.3.18', queue=False, depth=4, pushes=1,
                  options=['bypass_build_status'], statuses_int=[]),
+            # developers commit on the integration branches (incl. a
+            # content-null forward port: the change reverted on a version)
+            spec('noq-D3-manual', 'D3', 'development/4.3', None, queue=False,
+                 depth=4, manual=['commit', 'revert'],
+                 init=[['open', PR1, 'development/4.3'], ['eval_pr', 1]]),
+            spec('q-D2-manual', 'D2', 'development/4.3', None,
+                 depth=5, statuses_q=['SUCCESSFUL'], manual=['revert'],
+                 init=[['open', PR1, 'development/4.3'], ['eval_pr', 1]]),
         ]
     out = [create_spec(False, 4), create_spec(True, 5)]
+    for mode, kw in [('q', dict()), ('skipq', dict(skip=True)),
+                     ('noq', dict(queue=False))]:
+        for octo in ((), ('no_octopus',)):
+            out.append(spec(
+                '%s-D3-manual%s' % (mode, '-nooct' if octo else ''), 'D3',
+                'development/4.3', None, depth=7,
+                options=list(octo), statuses_q=['SUCCESSFUL'], pushes=1,
+                manual=['commit', 'revert'],
+                init=[['open', PR1, 'development/4.3'], ['eval_pr', 1]],
+                **kw))
     admin = [['rebuild_queues'], ['delete_queues'], ['force_merge']]
     for layout, d1, d2 in [
             ('D1', 'development/4.3', 'development/4.3'),
